@@ -28,8 +28,8 @@
 //  * C11(b): free-floating base (Free mobilizer), every force element / constraint acts
 //    between two non-Ground bodies or on a non-base mobilizer, no gravity;
 //  * integrator exceptions (StepFailed, InitializationFailed) are outcomes that are
-//    counted, and so are stalls (10 consecutive "steps" that do not advance time: CPodes
-//    continuing with t + h == t); states returned before are still judged (C11: except those
+//    counted, and so are stalls (10 consecutive "steps" advancing time by < 1e-7: CPodes
+//    even continues with t + h == t); states returned before are still judged (C11: except those
 //    in the last 20% of the simulated time before the failure / stall, i.e. the approach to
 //    the point the integrator declared impassable);
 //  * every run is bounded by a count of returned states (no wall clock anywhere).
@@ -532,8 +532,9 @@ template <class F> static RunResult simulate(Ctx& c, Built& b, const Spec& sp, c
         case Integrator::EndOfSimulation: kind = SK_End; break;
         default: kind = SK_Step;
         }
-        // a "step" that does not advance time (CPodes continuing with t + h == t): after 10 in a row the run is stalled
-        if (kind == SK_Step && rs.getTime() - R.tEnd <= 1e-13 * std::max(1.0, std::fabs(rs.getTime()))) { if (++stalled >= 10) { R.outcome = "stalled"; break; } } else stalled = 0;
+        // a "step" that advances time by less than 1e-7 (step size collapsing; CPodes even continues with t + h == t):
+        // after 10 in a row the run is stalled
+        if (kind == SK_Step && rs.getTime() - R.tEnd <= 1e-7) { if (++stalled >= 10) { R.outcome = "stalled"; break; } } else stalled = 0;
         ++R.nStates; R.tEnd = rs.getTime(); prevKind = kind;
         c.setPhase(std::string("monitor ") + ikName(o.integ) + " " + skName(kind));
         if (!onState(rs, kind, integ->isStateInterpolated(), *integ)) { R.outcome = "guard"; break; }
@@ -835,7 +836,7 @@ static void checkC21(Ctx& c, long idx, Rng& r) {
         kindsSeen.insert(kind);
         if (kind == SK_End) return true;               // same state object as the previous return
         if (!allFinite(rs.getY()) || !std::isfinite(rs.getTime())) {
-            c.viol((o.stepMode != 0 && integ != IK_SEE) ? "forced-step-size:" + in + modeTag : "nonfinite:" + in + ":" + skName(kind), Json(wit0).set("t", rs.getTime())); stop = true; return false;
+            c.viol((o.stepMode != 0 || integ == IK_SEE) ? std::string("forced-step-size:") + (ikIsCPodes(integ) ? "CPodes" : "AbstractIntegratorRep") + (integ == IK_SEE ? ":SemiExplicitEuler" : modeTag) : "nonfinite:" + in + ":" + skName(kind), Json(wit0).set("t", rs.getTime())); stop = true; return false;
         }
         // independent re-evaluation of the constraint errors from <t,q,u> alone
         State s(rs);
@@ -863,17 +864,24 @@ static void checkC21(Ctx& c, long idx, Rng& r) {
         if (!judge) { ++unjudgedInterp; if (pn > tol || qn > tol || vn > tol) ++offManifoldUnjudged; return true; }
         ++judged;
         // Violation keys: <class>:<integrator>:<kind of returned state> in the configurations the statement quantifies over.
-        // Two situations get a key of their own (one root cause each, whatever error norm shows it first):
-        //  * a minimum / fixed step size is forced on an error-controlled integrator (configuration outside the quantifier);
+        // Three situations get a key of their own (one root cause each, whatever error norm shows it first):
+        //  * a minimum / fixed step size is forced on an error-controlled integrator (configuration outside the quantifier)
+        //    or the integrator is the fixed-step SemiExplicitEuler: AbstractIntegratorRep accepts a step it could not
+        //    shrink, converged / projected or not;
         //  * CPodes hands back a state that CPODES itself interpolated (report time in normal mode, tHigh after a root
-        //    return) and that is returned as a non-interpolated trajectory state.
+        //    return) and that is returned as a non-interpolated trajectory state;
+        //  * CPodes/Adams step sizes collapsing (< 1e-6) on a model that needs projection.
         const bool cpInterp = ikIsCPodes(integ) && !interpolated && (kind == SK_Report || kind == SK_EventAfter);
+        const bool collapsing = integ == IK_CPAdams && ig.getPreviousStepSizeTaken() < 1e-6;
         auto keyOf = [&](const char* cls) {
-            if (o.stepMode != 0 && integ != IK_SEE) return std::string("forced-step-size") + ":" + in + modeTag;
+            if (integ == IK_SEE) return std::string("forced-step-size:AbstractIntegratorRep:SemiExplicitEuler");
+            if (o.stepMode != 0) return std::string("forced-step-size:") + (ikIsCPodes(integ) ? "CPodes" : "AbstractIntegratorRep") + modeTag;
             if (cpInterp) return std::string("cpodes-internal-interpolant:") + in + ":" + skName(kind);
+            if (collapsing) return std::string("collapsing-step-size:CPodesAdams");
             return std::string(cls) + ":" + in + ":" + skName(kind);
         };
-        auto W = [&](const char* what, double v) { return [&, what, v] { return Json(wit0).set("what", what).set("norm", v).set("consTolInUse", ig.getConstraintToleranceInUse()).set("t", rs.getTime()).set("interpolated", interpolated); }; };
+        auto W = [&](const char* what, double v) { return [&, what, v] { return Json(wit0).set("what", what).set("norm", v).set("consTolInUse", ig.getConstraintToleranceInUse()).set("t", rs.getTime()).set("interpolated", interpolated)
+            .set("kind", skName(kind)).set("previousStepSize", ig.getPreviousStepSizeTaken()).set("convergenceTestFailures", ig.getNumConvergenceTestFailures()).set("projectionFailures", ig.getNumProjectionFailures()); }; };
         bool ok = true;
         if (mHolo) ok &= c.check(keyOf("perr"), pn, tol, W("weighted position-constraint error norm of a returned state exceeds the constraint tolerance in use", pn));
         if (nQuat) { ok &= c.check(keyOf("quat"), qn, tol, W("quaternion normalisation error norm of a returned state exceeds the constraint tolerance in use", qn));
@@ -897,7 +905,7 @@ static void checkC21(Ctx& c, long idx, Rng& r) {
             if (hq) for (int i = 0; i < mr.nq; ++i) eq = std::max(eq, std::fabs(rs.getQ()[mr.qStart + i] - qv));
             if (hu) for (int i = 0; i < mr.nu; ++i) eu = std::max(eu, std::fabs(rs.getU()[mr.uStart + i] - uv));
             if (ha) for (int i = 0; i < mr.nu; ++i) ea = std::max(ea, std::fabs(s.getUDot()[mr.uStart + i] - av));
-            const std::string mk = (o.stepMode != 0 && integ != IK_SEE) ? keyOf("motion") : std::string("motion:") + mName(mr.kind) + ":" + in + ":" + skName(kind);
+            const std::string mk = (o.stepMode != 0 || integ == IK_SEE || cpInterp || collapsing) ? keyOf("motion") : std::string("motion:") + mName(mr.kind) + ":" + in + ":" + skName(kind);
             double sc = 1e-12 * (1 + std::fabs(m.amp) * (1 + m.rate) + std::fabs(m.c0) + std::fabs(m.c1) * (1 + t) + std::fabs(m.c2) * (1 + t) * (1 + t));
             if (hq) ok &= c.check(mk, eq, sc, W("prescribed q of a returned state differs from the Motion's analytic value", eq));
             if (hu) ok &= c.check(mk, eu, sc, W("prescribed u of a returned state differs from the Motion's analytic value", eu));
